@@ -107,7 +107,11 @@ REC_SIM_OBJS := $(patsubst %.cc,$(RECB)/sim/%.o,$(REC_SIM_SRCS))
 $(RECB)/sim/%.o: %.cc $(wildcard sim/*.h spec/*.h bindings/*.h engines/reent/drivers.h) Makefile | dirs
 	@mkdir -p $(dir $@)
 	$(CXX) $(SIM_CXXFLAGS) -fsanitize=address -c $< -o $@
-REC_DRV_OBJS := $(B)/reent/drv_can.o $(B)/reent/drv_canbrief.o $(B)/reent/drv_vss.o $(RECB)/drvvar.o
+REC_DRV_OBJS := $(B)/reent/drv_can.o $(B)/reent/drv_canbrief.o $(B)/reent/drv_vss.o $(RECB)/drvvar.o $(RECB)/bindS.o
+# the generated bindings again, behind the system headers that the example programs include (S_)
+BINDS_DEPS := $(BIND_SRCS) bindings/bind.h tools/build_bind_variant.sh $(REPO_HDRS) $(EX_SRCS)
+$(RECB)/bindS.o: $(BINDS_DEPS) | dirs
+	tools/build_bind_variant.sh $@ $(RECB)/bindS "$(CC)" "$(REPO_STD) -O2 -g -fsanitize=address -I$(REPO)/include $(REPO_EXTRA_INCS) -Ibindings -w" $(EX) $(BIND_SRCS)
 # the drivers again, behind all public headers in alphabetical / reverse order (A_, Z_)
 $(RECB)/drvvar.o: $(DRVVAR_DEPS) | dirs
 	tools/build_drv_variants.sh $@ $(RECB)/drvvar "$(CC)" "$(REPO_STD) -O1 -g -I$(REPO)/include $(REPO_EXTRA_INCS) -Iengines/reent -w" $(GEN)/all_headers_az.h $(GEN)/all_headers_za.h $(DRV_SRCS)
@@ -183,8 +187,10 @@ $(GLIBB)/rec/%.o: %.cc $(wildcard sim/*.h spec/*.h bindings/*.h) Makefile | dirs
 	$(CXX) $(SIM_CXXFLAGS) -fsanitize=address -DREC_VARIANT_GCC=1 -c $< -o $@
 $(GLIBB)/drvvar.o: $(DRVVAR_DEPS) | dirs
 	tools/build_drv_variants.sh $@ $(GLIBB)/drvvar "$(GCC)" "$(GCC_REPO_CFLAGS) -Iengines/reent" $(GEN)/all_headers_az.h $(GEN)/all_headers_za.h $(DRV_SRCS)
-$(B)/recg_sim: $(NETB)/marker_begin.o $(GCC_LIB_OBJS) $(NETB)/marker_end.o $(GCC_BIND_OBJS) $(GLIBB)/drv_can.o $(GLIBB)/drv_canbrief.o $(GLIBB)/drv_vss.o $(GLIBB)/drvvar.o $(RECG_SIM_OBJS)
-	$(CXX) -no-pie -fsanitize=address -o $@ $(NETB)/marker_begin.o $(GCC_LIB_OBJS) $(NETB)/marker_end.o $(GCC_BIND_OBJS) $(GLIBB)/drv_can.o $(GLIBB)/drv_canbrief.o $(GLIBB)/drv_vss.o $(GLIBB)/drvvar.o $(RECG_SIM_OBJS) -lm
+$(GLIBB)/bindS.o: $(BINDS_DEPS) | dirs
+	tools/build_bind_variant.sh $@ $(GLIBB)/bindS "$(GCC)" "$(GCC_REPO_CFLAGS) -Ibindings" $(EX) $(BIND_SRCS)
+$(B)/recg_sim: $(NETB)/marker_begin.o $(GCC_LIB_OBJS) $(NETB)/marker_end.o $(GCC_BIND_OBJS) $(GLIBB)/drv_can.o $(GLIBB)/drv_canbrief.o $(GLIBB)/drv_vss.o $(GLIBB)/drvvar.o $(GLIBB)/bindS.o $(RECG_SIM_OBJS)
+	$(CXX) -no-pie -fsanitize=address -o $@ $(NETB)/marker_begin.o $(GCC_LIB_OBJS) $(NETB)/marker_end.o $(GCC_BIND_OBJS) $(GLIBB)/drv_can.o $(GLIBB)/drv_canbrief.o $(GLIBB)/drv_vss.o $(GLIBB)/drvvar.o $(GLIBB)/bindS.o $(RECG_SIM_OBJS) -lm
 rec: $(B)/recg_sim
 
 # ---------------------------------------------------------------- third build for C16: the instrumented build once more, optimised
@@ -226,8 +232,10 @@ $(G0B)/rec/%.o: %.cc $(wildcard sim/*.h spec/*.h bindings/*.h engines/reent/driv
 	$(CXX) $(SIM_CXXFLAGS) -fsanitize=address -DREC_VARIANT_O0=1 -c $< -o $@
 $(G0B)/drvvar.o: $(DRVVAR_DEPS) | dirs
 	tools/build_drv_variants.sh $@ $(G0B)/drvvar "$(GCC)" "$(G0_CFLAGS) -Iengines/reent" $(GEN)/all_headers_az.h $(GEN)/all_headers_za.h $(DRV_SRCS)
-$(B)/reco_sim: $(NETB)/marker_begin.o $(G0_LIB_OBJS) $(NETB)/marker_end.o $(G0_BIND_OBJS) $(G0B)/drv_can.o $(G0B)/drv_canbrief.o $(G0B)/drv_vss.o $(G0B)/drvvar.o $(REC0_SIM_OBJS)
-	$(CXX) -no-pie -fsanitize=address -o $@ $(NETB)/marker_begin.o $(G0_LIB_OBJS) $(NETB)/marker_end.o $(G0_BIND_OBJS) $(G0B)/drv_can.o $(G0B)/drv_canbrief.o $(G0B)/drv_vss.o $(G0B)/drvvar.o $(REC0_SIM_OBJS) -lm
+$(G0B)/bindS.o: $(BINDS_DEPS) | dirs
+	tools/build_bind_variant.sh $@ $(G0B)/bindS "$(GCC)" "$(G0_CFLAGS) -Ibindings" $(EX) $(BIND_SRCS)
+$(B)/reco_sim: $(NETB)/marker_begin.o $(G0_LIB_OBJS) $(NETB)/marker_end.o $(G0_BIND_OBJS) $(G0B)/drv_can.o $(G0B)/drv_canbrief.o $(G0B)/drv_vss.o $(G0B)/drvvar.o $(G0B)/bindS.o $(REC0_SIM_OBJS)
+	$(CXX) -no-pie -fsanitize=address -o $@ $(NETB)/marker_begin.o $(G0_LIB_OBJS) $(NETB)/marker_end.o $(G0_BIND_OBJS) $(G0B)/drv_can.o $(G0B)/drv_canbrief.o $(G0B)/drv_vss.o $(G0B)/drvvar.o $(G0B)/bindS.o $(REC0_SIM_OBJS) -lm
 rec: $(B)/reco_sim
 
 dirs:
